@@ -13,6 +13,7 @@
 -/
 import PomerolModel.Model.Container4
 import PomerolModel.Spec.Chi4
+import PomerolModel.Spec.Chi4Exchange
 
 namespace Pomerol.Properties.C13
 open Pomerol.Model.C4
@@ -640,5 +641,76 @@ theorem exchange_first_pair {ι : Type} [Fintype ι] [DecidableEq ι] (d : Eigen
     d.chiDef ![O 1, O 0, O 2] X ![z 1, z 0, z 2] = - d.chiDef O X z ∧
     d.chiLehmann ![O 1, O 0, O 2] X ![z 1, z 0, z 2] = - d.chiLehmann O X z :=
   ⟨chiDef_swap01 d O X z, chiLehmann_swap01 d O X z⟩
+
+
+open Pomerol.Spec in
+/-- THE SECOND EXCHANGE SYMMETRY: χ_{ijlk}(ω₁,ω₂;ω₁+ω₂−ω₃) = −χ_{ijkl}(ω₁,ω₂;ω₃).
+
+With `O 0 = c_i`, `O 1 = c_j`, `O 2 = c†_k`, `X = c†_l`, `z 0 = iω₁`, `z 1 = iω₂`, `z 2 = −iω₃`:
+exchanging the third operator `c†_k` with the fourth one `c†_l` (the one at time 0), the third
+frequency becoming the frequency carried by the fourth operator, `−(z 0 + z 1 + z 2) = −iω₄` with
+`ω₄ = ω₁+ω₂−ω₃`, flips the sign -- both for the definition of chi (signed sum over the six
+time-ordered simplex integrals) and for its Lehmann form (what the library evaluates).  It holds
+for every spectrum (degenerate or not: all resonance classes of the multi-term), every β > 0, all
+matrices and all frequencies with `e^{βz} = −1` (the fermionic Matsubara frequencies, see
+`exchange_second_pair_matsubara`).  Unlike the first exchange symmetry this is not a relabelling of
+the time orderings: it rests on the cyclicity of the trace and the fermionic antiperiodicity
+(`Pomerol.Spec.multiTerm_rotate`, `Pomerol.Spec.orderedLehmann_rotate`). -/
+theorem exchange_second_pair {ι : Type} [Fintype ι] [DecidableEq ι] (d : EigenData ι)
+    (O : Fin 3 → Matrix ι ι ℂ) (X : Matrix ι ι ℂ) (z : Fin 3 → ℂ)
+    (hz : ∀ k, Complex.exp ((d.β:ℂ) * z k) = -1) :
+    d.chiDef ![O 0, O 1, X] (O 2) ![z 0, z 1, -(z 0 + z 1 + z 2)] = - d.chiDef O X z ∧
+    d.chiLehmann ![O 0, O 1, X] (O 2) ![z 0, z 1, -(z 0 + z 1 + z 2)] = - d.chiLehmann O X z :=
+  ⟨chiDef_swap23 d O X z hz, chiLehmann_swap23 d O X z hz⟩
+
+open Pomerol.Spec in
+/-- the second exchange symmetry at the Matsubara frequencies numbered (k₁,k₂,k₃): the exchanged
+function is taken at (k₁,k₂,k₁+k₂−k₃), which is the arithmetic `fourthNumber` of the container
+(this also shows that the hypothesis of `exchange_second_pair` is satisfiable) -/
+theorem exchange_second_pair_matsubara {ι : Type} [Fintype ι] [DecidableEq ι] (d : EigenData ι)
+    (O : Fin 3 → Matrix ι ι ℂ) (X : Matrix ι ι ℂ) (k1 k2 k3 : ℤ) :
+    d.chiDef ![O 0, O 1, X] (O 2)
+        ![Complex.I * (d.ω k1 : ℂ), Complex.I * (d.ω k2 : ℂ),
+          -(Complex.I * (d.ω (Pomerol.Gen.Core.fourthNumber k1 k2 k3) : ℂ))]
+      = - d.chiDef O X
+        ![Complex.I * (d.ω k1 : ℂ), Complex.I * (d.ω k2 : ℂ), -(Complex.I * (d.ω k3 : ℂ))] :=
+  chiDef_swap23_matsubara d O X k1 k2 k3
+
+open Pomerol.Spec in
+/-- The abstract `ChiFamily` used for the container is inhabited by the DEFINITION of chi: for any
+eigen-data and any families `c`, `cd` of matrices (annihilators / creators in the eigenbasis), the
+function (i,j,k,l), (n₁,n₂,n₃) ↦ χ_{ijkl}(ω_{n₁},ω_{n₂};ω_{n₃}) has both exchange symmetries. -/
+noncomputable def chiFamilyOfDef {ι : Type} [Fintype ι] [DecidableEq ι] (d : EigenData ι)
+    (c cd : Nat → Matrix ι ι ℂ) : ChiFamily ℂ where
+  chi q n1 n2 n3 := d.chiDef ![c q.1, c q.2.1, cd q.2.2.1] (cd q.2.2.2)
+    ![Complex.I * (d.ω n1 : ℂ), Complex.I * (d.ω n2 : ℂ), -(Complex.I * (d.ω n3 : ℂ))]
+  sym12 i j k l n1 n2 n3 := by
+    have h := chiDef_swap01 d ![c i, c j, cd k] (cd l)
+      ![Complex.I * (d.ω n1 : ℂ), Complex.I * (d.ω n2 : ℂ), -(Complex.I * (d.ω n3 : ℂ))]
+    simpa using h
+  sym34 i j k l n1 n2 n3 := by
+    have h := chiDef_swap23_matsubara d ![c i, c j, cd k] (cd l) n1 n2 n3
+    simpa using h
+
+/-- sanity, generic class: the cyclic identity of the multi-term on a rational instance
+(a₁,a₂,a₃) = (1,2,3), a₄ = −6, arbitrary unrelated weights (1,2,3,4) -/
+example : Pomerol.Spec.mtCore 7 2 3 (-6) 2 3 4 1 = - Pomerol.Spec.mtCore 7 1 2 3 1 2 3 4 := by
+  unfold Pomerol.Spec.mtCore
+  norm_num
+
+/-- sanity, resonant class a₁+a₂ = 0 (weights w₃ = w₁): (a₁,a₂,a₃) = (1,−1,2), a₄ = −2, β = 3 -/
+example : Pomerol.Spec.mtCore 3 (-1) 2 (-2) 7 5 4 5 = - Pomerol.Spec.mtCore 3 1 (-1) 2 5 7 5 4 := by
+  unfold Pomerol.Spec.mtCore
+  norm_num
+
+/-- sanity, doubly resonant class (w₃ = w₁, w₄ = w₂): (a₁,a₂,a₃) = (2,−2,2), a₄ = −2, β = 3 -/
+example : Pomerol.Spec.mtCore 3 (-2) 2 (-2) 7 5 7 5 = - Pomerol.Spec.mtCore 3 2 (-2) 2 5 7 5 7 := by
+  unfold Pomerol.Spec.mtCore
+  norm_num
+
+/-- sanity: on the resonance the weight relation is NEEDED (with w₃ ≠ w₁ the identity fails) -/
+example : Pomerol.Spec.mtCore 3 (-1) 2 (-2) 7 6 4 5 ≠ - Pomerol.Spec.mtCore 3 1 (-1) 2 5 7 6 4 := by
+  unfold Pomerol.Spec.mtCore
+  norm_num
 
 end Pomerol.Properties.C13
